@@ -28,6 +28,19 @@ theorem key_dispatch_table_sound :
        ("exception", isIntKey (.struct 0), isStrKey (.struct 0))] := by
   decide
 
+/-- ZeroWriter's writer per category (the TProtocol methods in the text the real `golang.ZeroWriter` returns, asked on every run) is the
+one the model's `zeroM` stands for, and its first call emits the wire type of `zeroM` in `Core.Wire`'s type table — in particular
+a bool is written with `WriteBool`, not with the byte-identical (binary protocol) but not equivalent (compact protocol) `WriteByte`. -/
+theorem zero_writer_table_sound :
+    Generated.C13.zeroWriters =
+      [("bool", zeroCalls .bool), ("byte", zeroCalls .i8), ("i16", zeroCalls .i16), ("i32", zeroCalls .i32), ("i64", zeroCalls .i64),
+       ("double", zeroCalls .dbl), ("string", zeroCalls .str), ("binary", zeroCalls .bin), ("enum", zeroCalls .enum),
+       ("map", zeroCalls (.map .i32 .i32)), ("list", zeroCalls (.list .i32)), ("set", zeroCalls (.set .i32)),
+       ("struct", zeroCalls (.struct 0)), ("union", zeroCalls (.struct 0)), ("exception", zeroCalls (.struct 0))] ∧
+    (∀ ty ∈ [Ty.bool, .i8, .i16, .i32, .i64, .dbl, .str, .bin, .enum, .map .i32 .i32, .list .i32, .set .i32, .struct 0],
+      ((zeroCalls ty).head?.bind callTType) = some (zeroM ty).ttype) := by
+  decide
+
 /-! ## the pre-count loops -/
 
 /-- FieldWriteMap: the announced count is the number of selected keys (the loop ranges over the keys and leaves the bound alone). -/
